@@ -77,7 +77,7 @@ def do_check(plan, args, seed):
           f"({int(agg['runs'] / max(agg['wall_s'], 1e-9) * 3600)} runs/h)")
     print(f"faults fired: {st.get('fault', {})}  part-way: {st.get('fault_partway', {})}")
     print(f"probes: {st.get('probe', {})}")
-    for wline in runner.reach_warnings(st):
+    for wline in runner.reach_warnings(st, getattr(plan, "unreached_by_design", ())):
         print(f"REACH-WARNING {wline}")
     rc = 0
     reported = []
